@@ -243,6 +243,48 @@ fn c03_bytes_borrowed() {
 	std::mem::forget(r);
 }
 
+//@ harness: c03_bytes_borrowed_9
+//@   props: C03, C04, C01
+//@   tier: thorough
+//@   kind: bounded(input length <= 9; the length prefix itself ranges over all one..six-byte varints incl. negative and huge)
+//@   fn: de::deserializer::types::length_delimited::{read_len, read_length_delimited} + SliceRead::read_slice via <&[u8] as Deserialize> (node bytes)
+//@   domain: every byte string of length 0..=9
+//@   post: Ok(b) iff prefix is a valid long L with 0 <= L <= bytes available; b == the next L bytes AND b points into the input (zero-copy borrow); negative length, length beyond input, bad varint => Err; no allocation sized by L
+#[kani::proof]
+#[kani::unwind(12)]
+#[kani::stub(alloc::fmt::format, stub_format)]
+fn c03_bytes_borrowed_9() {
+	static NODE: SchemaNode<'static> = SchemaNode::Bytes;
+	let buf: [u8; 9] = kani::any();
+	let len: usize = kani::any();
+	kani::assume(len <= 9);
+	let input = &buf[..len];
+	let mut st = state_over(&NODE, input);
+	let r = <&[u8] as Deserialize>::deserialize(st.deserializer());
+	let consumed = len - remaining(&mut st.reader);
+	match spec_dec_long(input) {
+		Some((l, n)) if l >= 0 && (l as u64) <= (len - n) as u64 => {
+			let l = l as usize;
+			kani::cover!(l == 3, "COV three payload bytes");
+			match &r {
+				Ok(b) => {
+					assert!(b.len() == l && b[..] == input[n..n + l], "OBL C03.bytes.payload_is_next_len_bytes");
+					assert!(b.as_ptr() == input[n..].as_ptr(), "OBL C01.bytes.borrowed_from_input_slice");
+					assert!(consumed == n + l, "OBL C03.bytes.consumes_prefix_plus_payload");
+				}
+				Err(_) => assert!(false, "OBL C03.bytes.valid_encoding_must_decode"),
+			}
+		}
+		Some((l, _)) => {
+			kani::cover!(l < 0, "COV negative length");
+			kani::cover!(l > (1i64 << 33), "COV hostile length");
+			assert!(r.is_err(), "OBL C03.bytes.negative_or_unavailable_length_is_err");
+		}
+		None => assert!(r.is_err(), "OBL C03.bytes.bad_length_varint_is_err"),
+	}
+	std::mem::forget(r);
+}
+
 //@ harness: c03_string_borrowed
 //@   props: C03, C04, C01
 //@   tier: quick
@@ -258,6 +300,45 @@ fn c03_string_borrowed() {
 	let buf: [u8; 5] = kani::any();
 	let len: usize = kani::any();
 	kani::assume(len <= 5);
+	let input = &buf[..len];
+	let mut st = state_over(&NODE, input);
+	let r = <&str as Deserialize>::deserialize(st.deserializer());
+	match spec_dec_long(input) {
+		Some((l, n)) if l >= 0 && (l as u64) <= (len - n) as u64 => {
+			let l = l as usize;
+			let payload = &input[n..n + l];
+			let valid = std::str::from_utf8(payload).is_ok();
+			kani::cover!(!valid, "COV invalid utf-8 payload");
+			kani::cover!(valid && l == 3, "COV valid three-byte payload");
+			match &r {
+				Ok(s) => {
+					assert!(valid, "OBL C03.string.invalid_utf8_must_be_err");
+					assert!(s.as_bytes() == payload, "OBL C03.string.payload_is_next_len_bytes");
+					assert!(s.as_ptr() == payload.as_ptr(), "OBL C01.string.borrowed_from_input_slice");
+				}
+				Err(_) => assert!(!valid, "OBL C03.string.valid_encoding_must_decode"),
+			}
+		}
+		_ => assert!(r.is_err(), "OBL C03.string.bad_length_is_err"),
+	}
+	std::mem::forget(r);
+}
+
+//@ harness: c03_string_borrowed_7
+//@   props: C03, C04, C01
+//@   tier: thorough
+//@   kind: bounded(input length <= 7)
+//@   fn: de::deserializer::types::length_delimited::{read_length_delimited, StringVisitor, parse_str} via <&str as Deserialize> (node string)
+//@   domain: every byte string of length 0..=7
+//@   post: Ok(s) iff valid length prefix, payload available AND payload is valid UTF-8 (oracle: core::str::from_utf8, trusted std); s borrows from the input; invalid UTF-8 => Err
+#[kani::proof]
+#[kani::unwind(10)]
+#[kani::stub(alloc::fmt::format, stub_format)]
+fn c03_string_borrowed_7() {
+	static NODE: SchemaNode<'static> = SchemaNode::String;
+	let buf: [u8; 7] = kani::any();
+	let len: usize = kani::any();
+	kani::assume(len <= 7);
 	let input = &buf[..len];
 	let mut st = state_over(&NODE, input);
 	let r = <&str as Deserialize>::deserialize(st.deserializer());
@@ -694,6 +775,29 @@ where
 		}
 	}
 	Err(DeError::new("value not produced by the stand-in"))
+}
+
+//@ harness: c12_skip_length_delimited_nodes_6
+//@   props: C12
+//@   tier: thorough
+//@   kind: bounded(input length <= 6)
+//@   fn: de::deserializer::DatumDeserializer::deserialize_ignored_any (string: no UTF-8 check) vs deserialize_any (nodes string, bytes, uuid)
+//@   domain: every input of length 0..=6
+//@   post: whenever reading succeeds (valid length, valid UTF-8), ignoring succeeds and consumes the same bytes
+#[kani::proof]
+#[kani::unwind(9)]
+#[kani::stub(alloc::fmt::format, stub_format)]
+fn c12_skip_length_delimited_nodes_6() {
+	static ST: SchemaNode<'static> = SchemaNode::String;
+	static BY: SchemaNode<'static> = SchemaNode::Bytes;
+	static UU: SchemaNode<'static> = SchemaNode::Uuid;
+	let buf: [u8; 6] = kani::any();
+	let len: usize = kani::any();
+	kani::assume(len <= 6);
+	let input = &buf[..len];
+	skip_equals_read!(&ST, input, len);
+	skip_equals_read!(&BY, input, len);
+	skip_equals_read!(&UU, input, len);
 }
 
 //@ harness: c12_skip_decimal_fixed_delegates
